@@ -37,6 +37,8 @@ var wireCmd = map[string]memd.CmdCode{
 	"CloseStream": memd.CmdDcpCloseStream, "GetCollectionIDs": memd.CmdCollectionsGetID,
 	"Get": memd.CmdGet, "CreateDocument": memd.CmdSet, "UpdateDocument": memd.CmdSubDocMultiMutation, "DeleteDocument": memd.CmdDelete,
 	"UpsertXattrs": memd.CmdSubDocMultiMutation, "GetXattrs": memd.CmdSubDocMultiLookup, "CreatePath": memd.CmdSubDocMultiMutation,
+	// the document operations the way the library itself calls them (its own contexts and deadlines): the Couchbase metadata backend
+	"MetaLoad": memd.CmdSubDocMultiLookup, "MetaSave": memd.CmdSubDocMultiMutation, "MetaClear": memd.CmdDelete,
 }
 
 func classify(err error) string {
@@ -86,6 +88,7 @@ func (w *WireRun) Run() []TraceLine {
 	cfg := &config.Dcp{Hosts: []string{fmt.Sprintf("http://127.0.0.1:%d", node.HTTPPort())}, Username: "user", Password: "password", BucketName: "b1"}
 	cfg.Dcp.Group.Name = "g"
 	cfg.ApplyDefaults()
+	cfg.Checkpoint.Timeout = 400 * time.Millisecond
 	cl := couchbase.NewClient(cfg)
 	if err := cl.Connect(); err != nil {
 		return finish("connect: " + err.Error())
@@ -142,6 +145,30 @@ func (w *WireRun) Run() []TraceLine {
 			return err
 		case "CreatePath":
 			return couchbase.CreatePath(ctx, agent, "_default", "_default", []byte("doc1"), []byte("p"), []byte(`1`), 0)
+		case "MetaLoad", "MetaSave", "MetaClear":
+			// (Load panics on an error that is not "no such document": fail-stop, reported as the error it died with)
+			var err error
+			func() {
+				defer func() {
+					if r := recover(); r != nil {
+						if e, ok := r.(error); ok {
+							err = e
+						} else {
+							err = fmt.Errorf("%v", r)
+						}
+					}
+				}()
+				md := couchbase.NewCBMetadata(cl, cfg)
+				switch name {
+				case "MetaLoad":
+					_, _, err = md.Load([]uint16{1}, "uuid")
+				case "MetaSave":
+					err = md.Save(map[uint16]*models.CheckpointDocument{1: models.NewEmptyCheckpointDocument("uuid")}, map[uint16]bool{1: true}, "uuid")
+				case "MetaClear":
+					err = md.Clear([]uint16{1})
+				}
+			}()
+			return err
 		}
 		return errors.New("unreachable")
 	}
@@ -158,7 +185,9 @@ func (w *WireRun) Run() []TraceLine {
 	// how long the wrapper may take: the caller's context for doc_op.go (GetXattrs adds a fixed 5 s gocbcore deadline that is
 	// longer than the context: the context decides), 60 s for the wrappers of client.go
 	limit := 3 * time.Second
-	if mode == "silent" && !strings.Contains("Get CreateDocument UpdateDocument DeleteDocument UpsertXattrs GetXattrs CreatePath", name) {
+	if mode == "silent" && name == "MetaLoad" {
+		limit = 9 * time.Second // (the checkpoint read has a fixed 5 s deadline of its own)
+	} else if mode == "silent" && !strings.HasPrefix(name, "Meta") && !strings.Contains("Get CreateDocument UpdateDocument DeleteDocument UpsertXattrs GetXattrs CreatePath", name) {
 		limit = 75 * time.Second
 	}
 	w.s.WaitUntil(limit, func(_ map[string]string, d map[string]bool) bool { return d["caller"] })
